@@ -21,8 +21,46 @@ def one(binary, case):
         vlib.rmtree(d)
 
 
+def first_ingest(chk, binary, quick):
+    """racing FIRST ingests of new indexes: every acknowledged event must be searchable exactly once after the flush"""
+    def one_proc(k):
+        d = vlib.scratch("c11fi")
+        dr = None
+        try:
+            dr = vlib.Driver(binary, env={"SIGDRV_GOMAXPROCS": "16"})
+            dr.ok("init", dir=d, pqs=False)
+            return dr.ok("first_ingest", goroutines=8, events=3, rounds=12 if quick else 40, timeout=120)
+        except vlib.DriverDead as e:
+            return e
+        finally:
+            if dr is not None:
+                dr.quit()
+            vlib.rmtree(d)
+    res = vlib.pmap(one_proc, list(range(3 if quick else 10)), workers=3)
+    rounds = 0
+    for r in res:
+        if isinstance(r, vlib.DriverDead):
+            if r.kind == "hang":
+                raise vlib.Infra("first-ingest scenario did not answer: %s" % r)
+            chk.violation("C11:crash:first-ingest", "engine died while the first ingest requests of new indexes raced: %s" % r, {})
+            continue
+        chk.replayed(1)
+        for rd in r["rounds"]:
+            rounds += 1
+            chk.count(("first-ingest", rounds), nontrivial=True)
+            if rd.get("query_error") or rd["errors"]:
+                chk.violation("C11:error:first-ingest", "racing first ingests of index %s: ingest/query error %s %s" % (rd["index"], rd["errors"][:2], rd.get("query_error")), rd)
+            elif rd["found"] < rd["acked"]:
+                chk.violation("C11:loss:first-ingest", "8 goroutines made the first ingest into the new index %s at the same time: %d events were acknowledged, "
+                              "only %d are searchable after the flush" % (rd["index"], rd["acked"], rd["found"]), rd)
+            elif rd["dup"] or rd["found"] > rd["acked"]:
+                chk.violation("C11:dup:first-ingest", "racing first ingests of index %s: %d acknowledged, %d found, %d duplicated" % (rd["index"], rd["acked"], rd["found"], rd["dup"]), rd)
+    chk.cov["first_ingest"] = {"processes": len(res), "rounds": rounds}
+
+
 def run(chk, binary):
     quick = chk.tier == "quick"
+    first_ingest(chk, binary, quick)
     cases = []
     n = 6 if quick else 40
     for i in range(n):
